@@ -358,10 +358,12 @@ def updMark (st : State) (name : Name) (add : Bool) (ids : List Nat) : Outcome Ã
     let nt :=
       if t.known then (if add then markAddApply t ids else markDelApply t ids)
       else { t with definition := "<unknown>", cond := none }
+    -- `newTag.Uncertain` = old pending set âˆª changed ids while `inheritTagUncertainty` runs, then
+    -- `mgr.tags[name].Uncertain = prevUncertain`: the mark's own pending set is put back as it was
     match inherit { st with tags := tset st.tags name nt } with
     | none => (.diverged "inheritTagUncertainty", st)
     | some st' =>
-      let m := tmod st'.tags name fun x => { x with uncertain := [] }
+      let m := tmod st'.tags name fun x => { x with uncertain := t.uncertain }
       if tagJobPanics m then (.panic "startTaggingJobIfNeeded", st) else (.ok, { st' with tags := m })
 
 /-! ### the API as one step function -/
